@@ -33,6 +33,7 @@ FIXED_CORPUS = [
     '{"jsonrpc": "2.0", "method": "fail", "params": ["中"], "id": "中"}',
     '{"jsonrpc": "2.0", "method": "echo", "params": [1], "id": 1e999}',
     '{"method": "echo", "params": [-1e999], "id": 3}',
+    '[{"jsonrpc": "2.0", "method": "add", "params": [1, 2], "id": [1]}, {"jsonrpc": "2.0", "method": "echo", "params": ["n"], "id": {"k": 2}}, {"jsonrpc": "2.0", "method": "add", "params": [3, 4], "id": 5}]',
 ]
 
 # batches of more than a hundred entries (calls, a notification, an invalid entry; notifications only): run as they are
